@@ -178,6 +178,11 @@ def check_le(ctx):
                 texts.append(q + body + q)
     for k in NONSTR + [12345, -7, 1e15, 0.0001, 123.456]:
         texts.append(repr(k))
+    for t in list(texts[-6:]) + ["'x'", '"y z"', "''"]:
+        for pre in (' ', '\t', '  '):
+            for post in ('', ' ', '\n'):
+                texts.append(pre + t + post)
+        texts.append(t + ' ')
     if not ctx.build_ok:
         return
     ans = core.run_model(['PLE ' + enc_str(t) for t in texts])
@@ -240,7 +245,7 @@ def run(ctx, impl_only=False):
         if o.get('path') is not None and not impl_only:
             lines_r.append('PRENDER ' + ' '.join(key_tok(k) for k in plain))
             lines_p.append('PPARSE ' + enc_str(o['path']))
-            lines_s.append('PSTRINGIFY G ' + ' '.join(key_tok(k) for k in o['parsed'])) if isinstance(o['parsed'], list) and o['parsed'] else lines_s.append(None)
+            lines_s.append('PSTRINGIFY G ' + ' '.join(key_tok(k) for k in o['parsed'])) if isinstance(o['parsed'], list) and o['parsed'] and all(k is None or isinstance(k, (str, int, float, bool)) for k in o['parsed']) else lines_s.append(None)     # literal_eval can also yield bytes / tuples: outside the key universe
             idx.append(i)
         if i % 499 == 0:
             ctx.sample({'keys': [repr(k) for k in ks], 'path': o.get('path'), 'parsed': repr(o.get('parsed'))})
@@ -255,7 +260,10 @@ def run(ctx, impl_only=False):
             ctx.traces += 1
             if ar[j] != enc_str(o['path']):
                 ctx.diverge(case, enc_str(o['path']), ar[j], op='PRENDER')
-            if o['elements'] is not None and ap[j] != elems_tok(o['elements']):
+            in_universe = o['elements'] is not None and all(e is None or isinstance(e, (str, int, float, bool)) for e, _ in o['elements'])
+            if o['elements'] is not None and not in_universe:
+                ctx.count('parse_out_of_universe')        # a broken rendering (F8a) can leave an element text such as b'x' or (1, 2): literal_eval gives a type outside the key universe
+            elif o['elements'] is not None and ap[j] != elems_tok(o['elements']):
                 ctx.diverge(case, elems_tok(o['elements']), ap[j], op='PPARSE')
             if lines_s[j]:
                 a = next(as_)
